@@ -166,10 +166,10 @@ def series(rng, shape, n, base_f, base_g):
 SHAPES = ["zero", "partial", "ample", "random", "ramp", "feed_only", "grass_only", "random"]
 
 
-def gen_runs(rng, ncountries, nshapes, nmonths, model_months, fixed=("ARG", "IND", "LSO")):
+def gen_runs(rng, ncountries, nshapes, nmonths, model_months, fixed=("ARG", "IND", "LSO"), pool=None):
     """real-country runs of main(); supplies are scaled to the herd's own requirement (measured by a zero-supply probe)"""
-    pool = [c for c in COUNTRIES if c not in fixed]
-    codes = list(fixed) + rng.sample(pool, max(0, ncountries - len(fixed)))
+    pool = [c for c in (pool or COUNTRIES) if c not in fixed]
+    codes = list(fixed) + rng.sample(pool, min(len(pool), max(0, ncountries - len(fixed))))
     runs = []
     for code in codes[:ncountries]:
         for sc in SCENARIOS:
@@ -419,8 +419,6 @@ def run(ctx):
             ctx.violation("C07:trace@main", p, {"kind": "counterexample", "run": {k: rn[k] for k in ("code", "scenario", "feed", "grass", "kdict")}})
         st = r["statics"]
         # the order main() feeds in is the model's order of the implementation's own keys
-        if all(s["key"] == s["key"] for s in st):
-            pass
         for m, mon in r["months"].items():
             dist["main_months"] += 1
             calls = mon["calls"]
